@@ -2,10 +2,10 @@ import ExoVerif.Model.Blocks
 /-!
 # C11 — liveness (partial)
 
-`C11_full` — no reachable state makes block processing halt — is false for the code as it is: three
+`C11_full` — no reachable state makes block processing halt — is false for the code as it is: two
 concrete halts are exhibited in the model and replayed on the real application by the harness
 (`harness/dom_liveness.go`, sigs `halt:…`). `C11_block_never_halts_partial` proves that outside
-those three state shapes the modelled Begin/EndBlock pieces never halt, and
+those two state shapes the modelled Begin/EndBlock pieces never halt, and
 `C11_deliver_panic_is_rejection` that a panic during DeliverTx is a rejected tx with the state
 untouched. Panics inside Cosmos-SDK, IAVL, CometBFT, go-ethereum/evmos are not modelled; the
 repository's remaining panic-capable sites on block paths are listed and classified in
@@ -16,7 +16,7 @@ set_option exponentiation.threshold 400
 
 def C11_full : Prop := ∀ s : St, block s ≠ .halt
 
-def okState : St := { slashedOperatorValue := none, endingProposals := 0, avsGroups := [], maxAmountTimesPrice := 0, maxUsdValueInt := 0 }
+def okState : St := { slashedOperatorValue := none, endingProposals := [], lastTotalPower := 0, avsGroups := [], maxAmountTimesPrice := 0, maxUsdValueInt := 0 }
 
 /-- F-04b (repaired in the repository): SlashAssets never divides by zero; for an operator without
 positive value it returns an error, which the caller logs. -/
@@ -76,8 +76,69 @@ theorem C11_guard_median_divisor : medianDivisor ≠ 0 := by decide
 /-- the regression state of the directed scenario: value zero ⇒ logged, not halted -/
 theorem C11_slash_zero_value_is_logged : slashAssets 0 = .logged := by decide
 
-/-- F-11a: a governance proposal reaches the end of its voting period -/
-theorem C11_witness_gov_tally : block { okState with endingProposals := 1 } = .halt := by decide
+/-! ### F-11a (repaired by fix-F-11a): the gov tally over x/dogfood never halts -/
+
+theorem govShares_ne_zero (v : GovVal) (h : 1 ≤ v.power) : govShares v ≠ 0 := by
+  unfold govShares govTokens powerReduction decOne
+  have h1 : (0 : Int) < v.power * 10 ^ 18 := Int.mul_pos (by omega) (by decide)
+  have h2 : (0 : Int) < v.power * 10 ^ 18 * 10 ^ 18 := Int.mul_pos h1 (by decide)
+  omega
+
+/-- with DelegatorShares set consistently with Tokens, no voting validator makes the tally's Quo panic -/
+theorem C11_gov_tally_never_halts (vals : List GovVal) (h : ∀ v ∈ vals, 1 ≤ v.power) :
+    govTally govShares vals ≠ none := by
+  induction vals with
+  | nil => simp [govTally]
+  | cons v rest ih =>
+    have hr := ih (fun w hw => h w (by simp [hw]))
+    have hv := govShares_ne_zero v (h v (by simp))
+    unfold govTally
+    cases hvoted : v.voted
+    · simpa using hr
+    · cases ht : govTally govShares rest with
+      | none => exact absurd ht hr
+      | some t => simp [tallyVal, decQuo?, hv]
+
+/-- the quorum division is guarded by the IsZero test on TotalBondedTokens -/
+theorem C11_gov_quorum_never_halts (t totalPower : Int) : govQuorum? t totalPower ≠ none := by
+  unfold govQuorum?
+  by_cases h : totalBondedTokens totalPower = 0
+  · simp [h]
+  · have : totalBondedTokens totalPower * decOne ≠ 0 := Int.mul_ne_zero h (by decide)
+    simp [h, decQuo?, this]
+
+theorem C11_gov_end_block_never_halts (totalPower : Int) (ending : List (List GovVal))
+    (h : ∀ vals ∈ ending, ∀ v ∈ vals, 1 ≤ v.power) : govEndBlock totalPower ending = .ok := by
+  unfold govEndBlock
+  have : ending.any (fun vals => govProposalEnd totalPower vals == .halt) = false := by
+    rw [List.any_eq_false]
+    intro vals hv
+    have ht := C11_gov_tally_never_halts vals (h vals hv)
+    unfold govProposalEnd
+    cases hh : govTally govShares vals with
+    | none => exact absurd hh ht
+    | some t =>
+      have hq := C11_gov_quorum_never_halts t totalPower
+      cases hq2 : govQuorum? t totalPower with
+      | none => exact absurd hq2 hq
+      | some _ => simp [hq2]
+  simp [this]
+
+/-- what a voting validator weighs: exactly its tokens (shares·tokens/shares with shares = tokens) -/
+theorem C11_gov_vote_weight_is_tokens (v : GovVal) (h : 1 ≤ v.power) :
+    tallyVal (govShares v) (govTokens v) = some (govTokens v * decOne) := by
+  have hs := govShares_ne_zero v h
+  unfold tallyVal decQuo?
+  simp only [hs, if_false]
+  congr 1
+  rw [Int.mul_assoc, Int.mul_tdiv_cancel_left _ hs]
+
+/-- regressions: the state of the directed scenarios halts the pre-repair EndBlocker, and, with only the
+two stubs implemented, a voting validator whose operator-side shares are zero (opted out and undelegated
+within the epoch) still does -/
+theorem C11_regression_gov_unimplemented : govEndBlockPre [[{ power := 101, operatorShares := 101, voted := true }]] = .halt := by decide
+theorem C11_regression_gov_zero_shares :
+    govTally govSharesPre [{ power := 100, operatorShares := 0, voted := true }] = none := by decide
 /-- F-11f: an operator's USD value above 2^63-1 at a dogfood epoch end -/
 theorem C11_witness_power_out_of_int64 : block { okState with maxUsdValueInt := 2 ^ 63 } = .halt := by decide
 /-- F-11g: amount·price·10^18 beyond 315 bits (e.g. 2^200 base units at price 1 … 2^256 at any price) -/
@@ -85,7 +146,7 @@ theorem C11_witness_dec_overflow : block { okState with maxAmountTimesPrice := 2
   simp only [block, seqO, usdValueUpdate, decOverflows, decOne, decMaxBits, okState]
   decide
 
-theorem C11_full_fails : ¬ C11_full := fun h => h _ C11_witness_gov_tally
+theorem C11_full_fails : ¬ C11_full := fun h => h _ C11_witness_power_out_of_int64
 
 /-- F-11b (repaired in the repository): no task-result group halts the AVS epoch hook -/
 theorem C11_avs_group_never_halts (g : TaskGroup) : avsGroup g ≠ .halt := by
@@ -110,14 +171,14 @@ theorem C11_guard_phase_one_signature (taskId sigLen : Nat) (h : phaseOneAccepts
     (storedPhaseOne taskId sigLen).hasSignature = true := by
   simpa [phaseOneAccepts, storedPhaseOne] using h
 
-/-- Outside the three recorded state shapes, no modelled piece of Begin/EndBlock halts. -/
+/-- Outside the two recorded state shapes, no modelled piece of Begin/EndBlock halts. -/
 theorem C11_block_never_halts_partial (s : St) (inv : Inv s) : block s ≠ .halt := by
   have h1 : usdValueUpdate s.maxAmountTimesPrice = .ok := by simp [usdValueUpdate, inv.usdFits]
   have h2 : avsEpochEnd s.avsGroups = .ok := C11_avs_epoch_end_never_halts _
   have h4 : dogfoodEndBlock s.maxUsdValueInt = .ok := by
     have := inv.powerFits
     simp only [dogfoodEndBlock]; split <;> first | omega | rfl
-  have h5 : govEndBlock s.endingProposals = .ok := by simp [govEndBlock, inv.noTally]
+  have h5 : govEndBlock s.lastTotalPower s.endingProposals = .ok := C11_gov_end_block_never_halts _ _ inv.valPowers
   have h3 : slashStep s.slashedOperatorValue ≠ .halt := by
     cases hv : s.slashedOperatorValue with
     | none => simp [slashStep]
@@ -129,22 +190,23 @@ theorem C11_block_never_halts_partial (s : St) (inv : Inv s) : block s ≠ .halt
   | logged => simp
 
 /-- the hypothesis is satisfiable by a non-trivial state: a slash of a valueless operator, a
-signed and an unsigned task group, a large but representable power -/
-example : Inv { slashedOperatorValue := some 0, endingProposals := 0,
+proposal ending with two voting validators (one with zero operator-side shares), a signed and an unsigned task group, a large but representable power -/
+example : Inv { slashedOperatorValue := some 0,
+                endingProposals := [[{ power := 101, operatorShares := 101, voted := true }, { power := 100, operatorShares := 0, voted := true }]],
+                lastTotalPower := 201,
                 avsGroups := [{ results := [{ taskId := 1, hasSignature := true }, { taskId := 1, hasSignature := false }], taskInfoFound := true },
                               { results := [{ taskId := 2, hasSignature := false }], taskInfoFound := false }],
                 maxAmountTimesPrice := 10 ^ 30, maxUsdValueInt := 10 ^ 12 } where
-  noTally := rfl
+  valPowers := by decide
   powerFits := by decide
   usdFits := by decide
 
 /-- Each excluded shape is necessary: dropping any one clause of `Inv` admits a halting state
 (the witnesses above satisfy the other clauses). -/
 theorem C11_inv_clauses_necessary :
-    block { okState with endingProposals := 1 } = .halt ∧
     block { okState with maxUsdValueInt := 2 ^ 63 } = .halt ∧
     block { okState with maxAmountTimesPrice := 2 ^ 256 } = .halt :=
-  ⟨C11_witness_gov_tally, C11_witness_power_out_of_int64, C11_witness_dec_overflow⟩
+  ⟨C11_witness_power_out_of_int64, C11_witness_dec_overflow⟩
 
 /-- A panic (or error) while delivering a transaction is a rejection: the outcome is `rejected`
 and the state is exactly the state before the tx; an accepted tx is the only way to change state. -/
